@@ -311,6 +311,14 @@ def r6(ctx, prog):
     ctx.floor(R, 2)
 
 
+def r7(ctx, prog):
+    R = ctx.rule("C05.R7", "a failed re-allocation leaves the caller's reference intact: mi_reallocarr stores into the caller's pointer slot only the new block of a successful "
+                           "re-allocation (never the raw result: on failure the slot would become NULL and the still valid old block unreachable)")
+    import shared
+    shared.reallocarr_store(ctx, R, prog)
+    ctx.floor(R, 1)
+
+
 def run(ctx):
     ctx.explanation = ("Static decision of C05's code-shaped necessary conditions on every CFG path of the two re-allocation bodies, reallocf and mi_expand: "
                        "copy bounds (min idiom), guarded/exactly-once/never-before-return free of the old block, guards of the in-place return, alignment "
@@ -318,7 +326,7 @@ def run(ctx):
     for c in (["REL"] if ctx.tier == "quick" else ["REL", "SEC", "DBG"]):
         prog = ctx.prog(c)
         n0 = len(ctx.instances)
-        r1(ctx, prog); r2(ctx, prog); r3(ctx, prog); r6(ctx, prog)
+        r1(ctx, prog); r2(ctx, prog); r3(ctx, prog); r6(ctx, prog); r7(ctx, prog)
         if c == "REL":
             r4(ctx, prog)
         if c != "REL":
